@@ -58,6 +58,14 @@ CLAIMED["C19"] = ("Proof: for every finite history of clone/wake/wake_by_ref/dro
     "One genuine defect found and repaired (fix: bcca95f).",
     "5.C19", "Trusted: Coq kernel; hand-written model tied by correspondence; extraction; harness; tarc::BaseArc and core::task vtable dispatch; cross-thread memory-model effects not modelled.",
     "Coq invariant proof (induction over history) + model/impl differential execution")
+CLAIMED["C09"] = ("Proof by complete enumeration inside the kernel: for every opaque-conversion rule found in the current source (runtime impls and the impls of a real "
+    "expansion of sample definitions), every (Send?,Sync?) assignment of every parameter and Opaquable projection, and both markers, a gained marker is one "
+    "of the known cells (F-C09); the compositional rules (Fwd, containers, objects, groups, PhantomData) add nothing at all under the hypothesis that the "
+    "inner conversion adds nothing; the known class is proved real. The environment/rules are REGENERATED from /repo by a syn-based translator on every run; "
+    "the auto-trait calculus is validated against rustc itself on every nameable rule instance x 4 payload classes; rustc's own verdicts are the monitor and "
+    "a compiling witness program is the replay.",
+    "5.C09", "Trusted: Coq kernel (vm_compute); translator (xlate + autotraits.py); auto-trait calculus (validated against rustc each run); rustc trait resolution.",
+    "Coq finite-matrix proof over a model regenerated from source + rustc differential probe")
 PENDING = "not yet built in this round (planned, see DESIGN.md section 5); not claimed until its theorem, tie and monitor exist"
 NA = {}
 
